@@ -35,6 +35,11 @@ import (
 //	   class  tfin    target sends everything, waits until it has received everything, then EOF
 //	                  (p1 = 1: the last bytes come together with EOF); client reads to EOF
 //	          cfin    target never closes; client closes once both sides have received everything
+//	          cwfin   target never closes; the client drains what the target sends, writes its last
+//	                  chunk and calls Close at once (data + FIN in one flight): the target must
+//	                  still receive everything
+//	          twfin   target sends everything and returns EOF at once (p1 = 1: together with the
+//	                  last bytes), the server closes the stream: the client must still receive everything
 //	          cearly  client closes right after writing its first p1 chunks
 //	          tearly  target returns EOF after its first p1 chunks, waiting for nothing
 //	          trerr   target's Read fails after its first p1 chunks
@@ -277,7 +282,7 @@ func (t *lbTarget) Read(p []byte) (int, error) {
 		if w.downIdx < w.downLimit {
 			chunk := w.plan.down[w.downIdx][w.downOff:]
 			last := w.downIdx == w.downLimit-1 && len(chunk) <= len(p)
-			withEOF := last && w.plan.class == "tfin" && w.plan.p1 == 1
+			withEOF := last && (w.plan.class == "tfin" || w.plan.class == "twfin") && w.plan.p1 == 1
 			if withEOF && !t.endCondition() {
 				w.cond.Wait()
 				continue
@@ -295,7 +300,7 @@ func (t *lbTarget) Read(p []byte) (int, error) {
 			return n, nil
 		}
 		switch w.plan.class {
-		case "tfin", "tearly":
+		case "tfin", "tearly", "twfin":
 			if !t.endCondition() {
 				w.cond.Wait()
 				continue
@@ -595,6 +600,12 @@ func (relayLB) Gen(r *vh.RNG, n int, emit func(op string, tags ...string)) {
 		emitOne(fmt.Sprintf("lb tfin %s 1 %d %s %d %s %d - %s", o[:1], r.Intn(251), sizesStr(up), r.Intn(251), sizesStr(down), r.Intn(2), o[2:]),
 			"tfin", "opts-"+o[2:])
 	}
+	// the closer closes right after its last write: nothing written before the close may be lost
+	for _, c := range []string{"cwfin 0 h0t0", "cwfin 1 h0t1", "cwfin 0 h1t0", "twfin 0 h0t0", "twfin 1 h0t0", "twfin 1 h2t1"} {
+		up, down := genSizes(r, 1), genSizes(r, 1)
+		emitOne(fmt.Sprintf("lb %s %s 1 %d %s %d %s %d - %s", c[:5], c[6:7], r.Intn(251), sizesStr(up), r.Intn(251), sizesStr(down), r.Intn(2), c[8:]),
+			c[:5], "opts-"+c[8:])
+	}
 	for _, dir := range []string{"T", "R"} {
 		for _, gate := range []string{"now", "late"} {
 			for _, fo := range []bool{false, true} {
@@ -627,7 +638,11 @@ func (relayLB) Gen(r *vh.RNG, n int, emit func(op string, tags ...string)) {
 			emitOne(head("tfin")+fmt.Sprintf(" %d - %s", r.Intn(2), o), append(tags, "tfin")...)
 		case k < 40:
 			emitOne(head("cfin")+" 0 - "+o, append(tags, "cfin")...)
+		case k < 46:
+			emitOne(head("cwfin")+" 0 - "+o, append(tags, "cwfin")...)
 		case k < 52:
+			emitOne(head("twfin")+fmt.Sprintf(" %d - %s", r.Intn(2), o), append(tags, "twfin")...)
+		case k < 58:
 			emitOne(head("cearly")+fmt.Sprintf(" %d - %s", r.Intn(len(up)+1), o), append(tags, "cearly")...)
 		case k < 64:
 			emitOne(head("tearly")+fmt.Sprintf(" %d - %s", r.Intn(len(down)+1), o), append(tags, "tearly")...)
@@ -894,10 +909,20 @@ func runLbRelay(f []string) vh.Result {
 		upLimit = p.p1
 	}
 	go func() {
-		for _, ch := range p.up[:upLimit] {
+		for i, ch := range p.up[:upLimit] {
+			if p.class == "cwfin" && i == upLimit-1 {
+				// everything the target sends has been read: the down direction is idle
+				w.wait(func() bool { return len(w.rDown) >= len(w.downFlat) }, 10*time.Second)
+			}
 			if _, err := conn.Write(ch); err != nil {
 				break
 			}
+		}
+		if p.class == "cwfin" {
+			if upLimit == 0 {
+				w.wait(func() bool { return len(w.rDown) >= len(w.downFlat) }, 10*time.Second)
+			}
+			conn.Close() // right after the last Write
 		}
 		w.set(func() { w.writerDone = true })
 	}()
@@ -937,6 +962,8 @@ func runLbRelay(f []string) vh.Result {
 	case p.class == "cearly":
 		w.wait(func() bool { return w.writerDone }, T)
 		conn.Close()
+	case p.class == "cwfin":
+		w.wait(func() bool { return w.writerDone }, T) // the writer has closed the conn
 	case p.class == "veto" && p.late:
 		if !w.wait(func() bool { return w.vetoPending }, T) {
 			fail("the chunk to be refused never reached the traffic logger")
@@ -1001,10 +1028,17 @@ func runLbRelay(f []string) vh.Result {
 	if !bytes.HasPrefix(w.downFlat, rDown) {
 		fail("what the client received is not a prefix of what the target sent")
 	}
-	complete := p.class == "tfin" || p.class == "cfin"
+	complete := p.class == "tfin" || p.class == "cfin" || p.class == "cwfin"
+	completeDown := complete || p.class == "twfin"
 	if complete && (!bytes.Equal(rUp, w.upFlat) || !bytes.Equal(rDown, w.downFlat)) {
 		fail("both senders finished before anybody closed, but the target has %d of %d bytes and the client %d of %d",
 			len(rUp), len(w.upFlat), len(rDown), len(w.downFlat))
+	}
+	if p.class == "cwfin" && !bytes.Equal(rUp, w.upFlat) {
+		fail("the client closed right after its last write: the target has only %d of the %d bytes written before the close", len(rUp), len(w.upFlat))
+	}
+	if p.class == "twfin" && !bytes.Equal(rDown, w.downFlat) {
+		fail("the target ended right after its last bytes and the server closed the stream: the client has only %d of the %d bytes written before the close", len(rDown), len(w.downFlat))
 	}
 	appTx, appRx, offTx, offRx := 0, 0, 0, 0
 	if p.log {
@@ -1075,6 +1109,9 @@ func runLbRelay(f []string) vh.Result {
 		if offTx > len(w.upFlat) {
 			fail("tx handed to the logger %d bytes, the client sent only %d", offTx, len(w.upFlat))
 		}
+		if completeDown && !complete && appRx != len(w.downFlat) {
+			fail("complete down direction of %d bytes logged as rx=%d", len(w.downFlat), appRx)
+		}
 		if complete && (appTx != len(w.upFlat) || appRx != len(w.downFlat)) {
 			fail("complete relay of %d/%d bytes logged as tx=%d rx=%d", len(w.upFlat), len(w.downFlat), appTx, appRx)
 		}
@@ -1087,12 +1124,18 @@ func runLbRelay(f []string) vh.Result {
 	}
 	um, dm := "1", "0"
 	if complete {
-		um, dm = "2c", "2c"
+		um = "2c"
+	}
+	if completeDown {
+		dm = "2c"
 	}
 	if !p.log {
 		um, dm = "p", "p"
 		if complete {
-			um, dm = "pc", "pc"
+			um = "pc"
+		}
+		if completeDown {
+			dm = "pc"
 		}
 	}
 	mop := fmt.Sprintf("trace %s %s %d:%d %s %s %s %d:%d %s %s", b01s(closed),
